@@ -591,3 +591,397 @@ def _parent_key(t, p):
     if isinstance(parent, Obj):
         return parent.kv[p[-1]][0]
     return None
+
+
+# ---------------------------------------------------------------------------------------------- negative controls (C16)
+# An object encoding is parsed back into a tree, copied with ONE place changed (a float by one ulp, a name, a holiday, a
+# node, a quote, a knot, a coefficient, an enum field), and re-encoded; the real PartialEq must tell the two apart.
+class _P:
+    def __init__(self, a):
+        self.a, self.i = a, 0
+
+    def n(self):
+        v = self.a[self.i]
+        self.i += 1
+        return v
+
+    def name(self):
+        k = self.n()
+        return "".join(chr(self.n()) for _ in range(k))
+
+    def names(self):
+        return [self.name() for _ in range(self.n())]
+
+    def dual(self):
+        vs = self.names()
+        return {"names": vs, "re": self.n(), "du": [self.n() for _ in vs]}
+
+    def dual2(self):
+        d = self.dual()
+        d["dd"] = [self.n() for _ in range(len(d["names"]) ** 2)]
+        return d
+
+    def number(self):
+        k = self.n()
+        return [k, self.n() if k == 0 else self.dual() if k == 1 else self.dual2()]
+
+    def cal(self):
+        mask = [self.n() for _ in range(self.n())]
+        return {"mask": mask, "hols": [self.n() for _ in range(self.n())]}
+
+    def union(self):
+        cals = [self.cal() for _ in range(self.n())]
+        settle = [self.cal() for _ in range(self.n())] if self.n() == 1 else None
+        return {"cals": cals, "settle": settle}
+
+    def quote(self):
+        a, b, x = self.name(), self.name(), self.number()
+        st = self.n() if self.n() == 1 else None
+        return [a, b, x, st]
+
+    def obj(self):
+        k = self.n()
+        if k == 0:
+            return [k, self.dual()]
+        if k == 1:
+            return [k, self.dual2()]
+        if k == 2:
+            return [k, self.cal()]
+        if k == 3:
+            return [k, self.union()]
+        if k == 4:
+            return [k, self.name()]
+        if k == 5:
+            qs = [self.quote() for _ in range(self.n())]
+            base = self.name() if self.n() == 1 else None
+            order = self.n()
+            upd = [self.quote() for _ in range(self.n())]
+            return [k, {"quotes": qs, "base": base, "order": order, "upd": upd}]
+        if k == 6:
+            nk, nn = self.n(), self.n()
+            nodes = []
+            for _ in range(nn):
+                d = self.n()
+                nodes.append([d, self.n() if nk == 0 else self.dual() if nk == 1 else self.dual2()])
+            c = {"nk": nk, "nodes": nodes, "rule": self.n(), "id": self.name(), "conv": self.n(), "mod": self.n()}
+            c["base"] = self.n() if self.n() == 1 else None
+            ck = self.n()
+            c["cal"] = [ck, self.cal() if ck == 0 else self.union() if ck == 1 else self.name()]
+            return [k, c]
+        kk, nt = self.n(), self.n()
+        t = [self.n() for _ in range(nt)]
+        c = None
+        if self.n() == 1:
+            c = [self.n() if k == 7 else self.dual() if k == 8 else self.dual2() for _ in range(self.n())]
+        return [k, {"k": kk, "t": t, "c": c}]
+
+
+def parse_obj(enc):
+    p = _P(enc)
+    o = p.obj()
+    if p.i != len(enc):
+        raise ValueError("object encoding not consumed")
+    return o
+
+
+def _u_dual(d):
+    return enc_names(d["names"]) + [d["re"]] + list(d["du"]) + list(d.get("dd", []))
+
+
+def _u_number(x):
+    return [x[0]] + ([x[1]] if x[0] == 0 else _u_dual(x[1]))
+
+
+def _u_cal(c):
+    return [len(c["mask"])] + list(c["mask"]) + [len(c["hols"])] + list(c["hols"])
+
+
+def _u_union(u):
+    o = [len(u["cals"])]
+    for c in u["cals"]:
+        o += _u_cal(c)
+    if u["settle"] is None:
+        return o + [0]
+    o += [1, len(u["settle"])]
+    for c in u["settle"]:
+        o += _u_cal(c)
+    return o
+
+
+def _u_quote(q):
+    return enc_name(q[0]) + enc_name(q[1]) + _u_number(q[2]) + ([1, q[3]] if q[3] is not None else [0])
+
+
+def unparse_obj(o):
+    k, v = o
+    if k in (0, 1):
+        return [k] + _u_dual(v)
+    if k == 2:
+        return [k] + _u_cal(v)
+    if k == 3:
+        return [k] + _u_union(v)
+    if k == 4:
+        return [k] + enc_name(v)
+    if k == 5:
+        out = [k, len(v["quotes"])]
+        for q in v["quotes"]:
+            out += _u_quote(q)
+        out += ([1] + enc_name(v["base"])) if v["base"] is not None else [0]
+        out += [v["order"], len(v["upd"])]
+        for q in v["upd"]:
+            out += _u_quote(q)
+        return out
+    if k == 6:
+        out = [k, v["nk"], len(v["nodes"])]
+        for d, x in v["nodes"]:
+            out += [d] + ([x] if v["nk"] == 0 else _u_dual(x))
+        out += [v["rule"]] + enc_name(v["id"]) + [v["conv"], v["mod"]]
+        out += [1, v["base"]] if v["base"] is not None else [0]
+        ck, c = v["cal"]
+        return out + [ck] + (_u_cal(c) if ck == 0 else _u_union(c) if ck == 1 else enc_name(c))
+    out = [k, v["k"], len(v["t"])] + list(v["t"])
+    if v["c"] is None:
+        return out + [0]
+    out += [1, len(v["c"])]
+    for c in v["c"]:
+        out += [c] if k == 7 else _u_dual(c)
+    return out
+
+
+def ulp_bits(b):
+    """the bit pattern of the neighbouring double one ulp closer to zero (one ulp away from zero for +-0.0): always finite, and
+    never equal to the original under =="""
+    if b & 0x7FFFFFFFFFFFFFFF == 0:
+        return b | 1
+    return b - 1
+
+
+def up_bits(b):
+    """the bit pattern of the next double ABOVE b2f(b) (used where an ordering must be kept)"""
+    if b & 0x7FFFFFFFFFFFFFFF == 0:
+        return 1
+    return b + 1 if b >> 63 == 0 else b - 1
+
+
+import copy as _copy
+
+# named calendars that differ from each other in at least one business or settlement day of 1970-2200
+NAMED_OTHER = {"tgt": "ldn", "ldn,tgt|fed": "ldn,tgt|nyc", "nyc": "fed", "bus": "all", "all": "bus", "tyo,syd|nyc": "tyo,syd|fed",
+               "stk,osl": "stk", "mum|tgt,ldn": "mum|tgt", "fed": "nyc", "wlg": "syd", "stk": "osl", "tgt,ldn|fed": "tgt,ldn|nyc"}
+
+
+def _weekday(d):
+    return (d + 3) % 7          # day 0 = 1970-01-01, a Thursday; Monday = 0
+
+
+def _is_bus(cals, d):
+    return all(_weekday(d) not in c["mask"] and d not in c["hols"] for c in cals)
+
+
+def _pert_dual(rng, d, second):
+    """one-place changes of a Dual / Dual2 (as a dict) that its == sees: (label, new dict)"""
+    out = []
+    x = _copy.deepcopy(d)
+    x["re"] = ulp_bits(d["re"])
+    out.append(("value changed by one ulp", x))
+    n = len(d["names"])
+    distinct = len(set(d["names"])) == n
+    if n and distinct:
+        i = rng.randrange(n)
+        x = _copy.deepcopy(d)
+        x["du"][i] = ulp_bits(d["du"][i])
+        out.append(("one derivative changed by one ulp", x))
+        nz = [j for j in range(n) if d["du"][j] & 0x7FFFFFFFFFFFFFFF != 0]
+        if nz:
+            j = rng.choice(nz)
+            x = _copy.deepcopy(d)
+            x["names"][j] = d["names"][j] + "_r"
+            out.append(("one variable renamed", x))
+        if second:
+            i, j = rng.randrange(n), rng.randrange(n)
+            x = _copy.deepcopy(d)
+            x["dd"][i * n + j] = ulp_bits(d["dd"][i * n + j])
+            out.append(("one second derivative changed by one ulp", x))
+    return out
+
+
+def _pert_cal(rng, c):
+    out = []
+    x = _copy.deepcopy(c)
+    d = dn(2010, 1, 1) + rng.randrange(4000)
+    while d in c["hols"]:
+        d += 1
+    x["hols"].append(d)
+    out.append(("one holiday added", x))
+    if c["hols"]:
+        x = _copy.deepcopy(c)
+        h = rng.choice(c["hols"])
+        x["hols"] = [v for v in c["hols"] if v != h]
+        out.append(("one holiday removed", x))
+    x = _copy.deepcopy(c)
+    free = [w for w in range(7) if w not in c["mask"]]
+    if free and rng.random() < 0.5 or not c["mask"]:
+        x["mask"].append(rng.choice(free))
+        out.append(("one weekday added to the week mask", x))
+    else:
+        w = rng.choice(c["mask"])
+        x["mask"] = [v for v in c["mask"] if v != w]
+        out.append(("one weekday removed from the week mask", x))
+    return out
+
+
+def _pert_union(rng, u):
+    """changes that the SEMANTIC equality (business days and settlement days over 1970-2200) sees"""
+    out = []
+    lo = dn(2001, 1, 1)
+    day = next((d for d in range(lo + rng.randrange(3000), lo + 12000) if _is_bus(u["cals"], d)), None)
+    if day is not None:
+        x = _copy.deepcopy(u)
+        if x["cals"]:
+            x["cals"][rng.randrange(len(x["cals"]))]["hols"].append(day)
+        else:
+            x["cals"].append({"mask": [], "hols": [day]})
+        out.append(("one holiday added on a business day", x))
+    st = u["settle"] or []
+    day = next((d for d in range(lo + rng.randrange(3000), lo + 12000) if _is_bus(st, d)), None)
+    if day is not None:
+        x = _copy.deepcopy(u)
+        if x["settle"]:
+            x["settle"][rng.randrange(len(x["settle"]))]["hols"].append(day)
+        else:
+            x["settle"] = [{"mask": [], "hols": [day]}]
+        out.append(("one settlement holiday added on a settlement day", x))
+    return out
+
+
+def _pert_named(rng, nm):
+    o = NAMED_OTHER.get(nm.lower())
+    return [("calendar name changed", o)] if o else []
+
+
+def _pert_number(rng, x):
+    if x[0] == 0:
+        return [("value changed by one ulp", [0, ulp_bits(x[1])])]
+    return [(lab, [x[0], d]) for lab, d in _pert_dual(rng, x[1], x[0] == 2)]
+
+
+def perturbations(rng, enc, limit=3):
+    """up to `limit` encodings of the object `enc` changed in ONE place that the type's own equality must see:
+    [(label, encoding)]"""
+    k, v = parse_obj(enc)
+    outs = []
+
+    def put(lab, nv):
+        outs.append((lab, unparse_obj([k, nv])))
+    if k in (0, 1):
+        for lab, d in _pert_dual(rng, v, k == 1):
+            put(lab, d)
+    elif k == 2:
+        for lab, c in _pert_cal(rng, v):
+            put(lab, c)
+    elif k == 3:
+        for lab, u in _pert_union(rng, v):
+            put(lab, u)
+    elif k == 4:
+        for lab, nm in _pert_named(rng, v):
+            put(lab, nm)
+    elif k == 5:
+        # the quote finally stored for a pair is the last `update` of it, else the constructor's
+        qi = rng.randrange(len(v["quotes"]))
+        pair = {v["quotes"][qi][0].lower(), v["quotes"][qi][1].lower()}
+        tgt = ("quotes", qi)
+        for ui, q in enumerate(v["upd"]):
+            if {q[0].lower(), q[1].lower()} == pair:
+                tgt = ("upd", ui)
+        for lab, nx in _pert_number(rng, v[tgt[0]][tgt[1]][2])[:2]:
+            x = _copy.deepcopy(v)
+            x[tgt[0]][tgt[1]][2] = nx
+            put("one quote: " + lab, x)
+        used = set()
+        for q in v["quotes"] + v["upd"]:
+            used |= {q[0].lower(), q[1].lower()}
+        fresh = [c for c in ["chf", "aud", "nzd", "dkk", "pln"] if c not in used]
+        old = rng.choice(sorted(used))
+        x = _copy.deepcopy(v)
+        for q in x["quotes"] + x["upd"]:
+            for j in (0, 1):
+                if q[j].lower() == old:
+                    q[j] = fresh[0]
+        if x["base"] is not None and x["base"].lower() == old:
+            x["base"] = fresh[0]
+        put("one currency renamed", x)
+    elif k == 6:
+        ni = rng.randrange(len(v["nodes"]))
+        x = _copy.deepcopy(v)
+        if v["nk"] == 0:
+            x["nodes"][ni][1] = ulp_bits(v["nodes"][ni][1])
+            put("one node value changed by one ulp", x)
+        else:
+            for lab, d in _pert_dual(rng, v["nodes"][ni][1], v["nk"] == 2)[:2]:
+                x = _copy.deepcopy(v)
+                x["nodes"][ni][1] = d
+                put("one node: " + lab, x)
+        days = [d for d, _ in v["nodes"]]
+        nd = days[ni] + 1
+        while nd in days:
+            nd += 1
+        x = _copy.deepcopy(v)
+        x["nodes"][ni][0] = nd
+        put("one node date moved", x)
+        x = _copy.deepcopy(v)
+        x["id"] = v["id"] + "x"
+        put("id changed", x)
+        x = _copy.deepcopy(v)
+        x["conv"] = (v["conv"] + 1 + rng.randrange(10)) % 11
+        put("convention changed", x)
+        x = _copy.deepcopy(v)
+        x["mod"] = (v["mod"] + 1 + rng.randrange(4)) % 5
+        put("modifier changed", x)
+        x = _copy.deepcopy(v)
+        x["rule"] = (v["rule"] + 1 + rng.randrange(5)) % 6
+        put("interpolation changed", x)
+        x = _copy.deepcopy(v)
+        x["base"] = ulp_bits(v["base"]) if v["base"] is not None else f2b(100.0)
+        put("index base changed by one ulp" if v["base"] is not None else "index base added", x)
+        ck, c = v["cal"]
+        sub = _pert_cal(rng, c)[:1] if ck == 0 else _pert_union(rng, c)[:1] if ck == 1 else _pert_named(rng, c)
+        for lab, nc in sub:
+            x = _copy.deepcopy(v)
+            x["cal"] = [ck, nc]
+            put("calendar: " + lab, x)
+    else:
+        t = v["t"]
+        x = _copy.deepcopy(v)
+        nb = up_bits(t[-1])
+        if (nb >> 52) & 0x7FF != 0x7FF:
+            x["t"][-1] = nb
+            put("last knot changed by one ulp", x)
+        x = _copy.deepcopy(v)
+        x["k"] = v["k"] + 1 if len(t) > v["k"] + 1 else v["k"] - 1
+        if x["k"] >= 1:
+            put("order changed", x)
+        x = _copy.deepcopy(v)
+        x["t"] = t + [t[-1]]
+        put("one knot added", x)
+        if v["c"]:
+            ci = rng.randrange(len(v["c"]))
+            if k == 7:
+                x = _copy.deepcopy(v)
+                x["c"][ci] = ulp_bits(v["c"][ci])
+                put("one coefficient changed by one ulp", x)
+            else:
+                for lab, d in _pert_dual(rng, v["c"][ci], k == 9)[:2]:
+                    x = _copy.deepcopy(v)
+                    x["c"][ci] = d
+                    put("one coefficient: " + lab, x)
+            x = _copy.deepcopy(v)
+            x["c"] = None
+            put("coefficients dropped", x)
+        elif v["c"] is None:
+            x = _copy.deepcopy(v)
+            nco = max(0, len(t) - v["k"])
+            x["c"] = [f2b(1.0)] * nco if k == 7 else [{"names": [], "re": f2b(1.0), "du": [], "dd": []} if k == 9 else
+                                                     {"names": [], "re": f2b(1.0), "du": []} for _ in range(nco)]
+            put("coefficients added", x)
+    rng.shuffle(outs)
+    return outs[:limit]
